@@ -530,10 +530,15 @@ func (lg *ledger) proveAssignable(x, container ssa.Value, part string, blk *ssa.
 	if args, ok := reflectFunc(container, "ValueOf"); ok {
 		targets = append(targets, "Type."+part+"(TypeOf("+lg.key(args[0])+"))")
 	}
+	return lg.proveAssignableT(x, targets, blk, 0)
+}
+
+// proveAssignableT: Type(x) is assignable to the type denoted by one of the target keys.
+func (lg *ledger) proveAssignableT(x ssa.Value, targets []string, blk *ssa.BasicBlock, depth int) (bool, string) {
 	// phi: each input separately
 	if phi, ok := x.(*ssa.Phi); ok {
 		for i, e := range phi.Edges {
-			if ok, _ := lg.proveAssignableOnEdge(e, container, part, phi.Block().Preds[i], phi.Block()); !ok {
+			if ok, _ := lg.proveAssignableOnEdgeT(e, targets, phi.Block().Preds[i], phi.Block(), depth); !ok {
 				// the fact may be established after the join on the phi itself
 				goto direct
 			}
@@ -553,15 +558,108 @@ direct:
 			}
 		}
 	}
+	// the value of a validating helper `v, err := check(T, x)` with err known to be nil here: every
+	// error-free return of the helper yields a value whose type is assignable to its parameter T
+	if ok, why := lg.viaValidatingHelper(x, blk, depth, func(lgG *ledger, g *ssa.Function, call *ssa.Call, res ssa.Value, at *ssa.BasicBlock) bool {
+		for k, prm := range g.Params {
+			if !namedIs(prm.Type(), "reflect", "Type") || k >= len(call.Call.Args) {
+				continue
+			}
+			ak := lg.key(call.Call.Args[k])
+			match := false
+			for _, t := range targets {
+				if t == ak {
+					match = true
+				}
+			}
+			if !match {
+				continue
+			}
+			if ok, _ := lgG.proveAssignableT(res, []string{lgG.key(prm)}, at, depth+1); ok {
+				return true
+			}
+		}
+		return false
+	}); ok {
+		return true, why
+	}
 	return false, ""
+}
+
+// viaValidatingHelper: x is result #i of a call of a module function whose error result is known
+// to be nil at blk; holds reports whether the property holds for that result at one error-free
+// return of the helper -- it must hold at every one.
+func (lg *ledger) viaValidatingHelper(x ssa.Value, blk *ssa.BasicBlock, depth int, holds func(lgG *ledger, g *ssa.Function, call *ssa.Call, res ssa.Value, at *ssa.BasicBlock) bool) (bool, string) {
+	ex, ok := x.(*ssa.Extract)
+	if !ok || depth > 2 {
+		return false, ""
+	}
+	call, ok := ex.Tuple.(*ssa.Call)
+	if !ok {
+		return false, ""
+	}
+	g := call.Call.StaticCallee()
+	if g == nil || !inModule(g) || len(g.Blocks) == 0 || g == lg.fn || len(g.Params) != len(call.Call.Args) {
+		return false, ""
+	}
+	// the error result known nil here
+	errIdx := -1
+	for _, f := range dominatingFacts(blk) {
+		cond, truth := f.cond, f.truth
+		for {
+			u, ok := cond.(*ssa.UnOp)
+			if !ok || u.Op != token.NOT {
+				break
+			}
+			cond, truth = u.X, !truth
+		}
+		bo, ok := cond.(*ssa.BinOp)
+		if !ok || (bo.Op != token.EQL && bo.Op != token.NEQ) || truth != (bo.Op == token.EQL) {
+			continue
+		}
+		for _, side := range [][2]ssa.Value{{bo.X, bo.Y}, {bo.Y, bo.X}} {
+			if fe, isEx := side[0].(*ssa.Extract); isEx && fe.Tuple == ex.Tuple && isNilConst(side[1]) && isErrorType(fe.Type()) {
+				errIdx = fe.Index
+			}
+		}
+	}
+	if errIdx < 0 {
+		return false, ""
+	}
+	lgG := newLedger(lg.w, g)
+	n := 0
+	for _, b := range g.Blocks {
+		ret, isRet := b.Instrs[len(b.Instrs)-1].(*ssa.Return)
+		if !isRet || errIdx >= len(ret.Results) || ex.Index >= len(ret.Results) {
+			continue
+		}
+		if definitelyNonNil(ret.Results[errIdx]) {
+			continue
+		}
+		n++
+		if !holds(lgG, g, call, ret.Results[ex.Index], b) {
+			return false, ""
+		}
+	}
+	if n == 0 {
+		return false, ""
+	}
+	return true, "guaranteed by " + g.Name() + " on every return without error"
 }
 
 // proveAssignableOnEdge: like proveAssignable, also using the condition of the edge from -> to.
 func (lg *ledger) proveAssignableOnEdge(x, container ssa.Value, part string, from, to *ssa.BasicBlock) (bool, string) {
-	if ok, why := lg.proveAssignable(x, container, part, from); ok {
+	targets := []string{"Type." + part + "(Type(" + lg.key(container) + "))"}
+	if args, ok := reflectFunc(container, "ValueOf"); ok {
+		targets = append(targets, "Type."+part+"(TypeOf("+lg.key(args[0])+"))")
+	}
+	return lg.proveAssignableOnEdgeT(x, targets, from, to, 0)
+}
+
+func (lg *ledger) proveAssignableOnEdgeT(x ssa.Value, targets []string, from, to *ssa.BasicBlock, depth int) (bool, string) {
+	if ok, why := lg.proveAssignableT(x, targets, from, depth); ok {
 		return true, why
 	}
-	targets := []string{"Type." + part + "(Type(" + lg.key(container) + "))"}
 	for _, f := range edgeFacts(from, to) {
 		for _, tk := range lg.valueTypeKeys(x) {
 			for _, tv := range lg.valuesWithKey(tk) {
@@ -665,7 +763,13 @@ func (lg *ledger) comparable(k ssa.Value, blk *ssa.BasicBlock) oblPred {
 				}
 			}
 		}
-		// a key of a basic static kind
+		// the value of a validating helper that returns without error only for comparable types
+		if ok, why := lg.viaValidatingHelper(k, blk, 0, func(lgG *ledger, g *ssa.Function, call *ssa.Call, res ssa.Value, at *ssa.BasicBlock) bool {
+			ok, _ := lgG.comparable(res, at).prove()
+			return ok
+		}); ok {
+			return true, why
+		}
 		return false, ""
 	}}
 }
